@@ -365,7 +365,9 @@ impl MqttShared {
     ) -> Result<(), error::EncodeError> {
         self.check_streaming()?;
         self.enable_streaming(&pkt, payload.as_ref());
-        self.io.encode(Encoded::Publish(pkt, payload), &self.codec)
+        self.io
+            .encode(Encoded::Publish(pkt, payload), &self.codec)
+            .inspect_err(|_| self.streaming_remaining.set(None))
     }
 
     pub(super) fn encode_publish_payload(
@@ -507,12 +509,12 @@ impl MqttShared {
         payload: Option<Bytes>,
     ) -> Result<pool::Receiver<Ack>, SendPacketError> {
         self.check_streaming()?;
-        self.enable_streaming(&pkt, payload.as_ref());
 
         let mut queues = self.queues.borrow_mut();
         if queues.inflight_ids.contains(&id) {
             Err(SendPacketError::PacketIdInUse(id))
         } else {
+            self.enable_streaming(&pkt, payload.as_ref());
             match self.io.encode(Encoded::Publish(pkt, payload), &self.codec) {
                 Ok(()) => {
                     let (tx, rx) = self.pool.queue.channel();
@@ -520,7 +522,10 @@ impl MqttShared {
                     queues.inflight_ids.insert(id);
                     Ok(rx)
                 }
-                Err(e) => Err(SendPacketError::Encode(e)),
+                Err(e) => {
+                    self.streaming_remaining.set(None);
+                    Err(SendPacketError::Encode(e))
+                }
             }
         }
     }
@@ -533,19 +538,22 @@ impl MqttShared {
         payload: Option<Bytes>,
     ) -> Result<(), SendPacketError> {
         self.check_streaming()?;
-        self.enable_streaming(&pkt, payload.as_ref());
 
         let mut queues = self.queues.borrow_mut();
         if queues.inflight_ids.contains(&id) {
             Err(SendPacketError::PacketIdInUse(id))
         } else {
+            self.enable_streaming(&pkt, payload.as_ref());
             match self.io.encode(Encoded::Publish(pkt, payload), &self.codec) {
                 Ok(()) => {
                     queues.inflight.push_back((id, None, ack));
                     queues.inflight_ids.insert(id);
                     Ok(())
                 }
-                Err(e) => Err(SendPacketError::Encode(e)),
+                Err(e) => {
+                    self.streaming_remaining.set(None);
+                    Err(SendPacketError::Encode(e))
+                }
             }
         }
     }
